@@ -83,6 +83,9 @@ pub fn any_field(len: u16) -> TemplateField {
 /// C06-ipfix-truncated-template-cached.)
 macro_rules! s_ipfix_template {
     ($name:ident, $fc:expr, $ent:expr, $pad:expr) => {
+        s_ipfix_template!($name, $fc, $ent, $pad, 1, 0);
+    };
+    ($name:ident, $fc:expr, $ent:expr, $pad:expr, $cfc:expr, $cpad:expr) => {
         #[kani::proof]
         #[kani::stub(core::fmt::write, no_fmt)]
         fn $name() {
@@ -92,11 +95,23 @@ macro_rules! s_ipfix_template {
             const RL: usize = 4 + (if FC >= 1 { if ENT[0] { 8 } else { 4 } } else { 0 }) + (if FC >= 2 { if ENT[1] { 8 } else { 4 } } else { 0 });
             const B: usize = RL + PAD;
             const N: usize = 4 + B + 1;
+            // cached entry: CFC symbolic plain fields, CPAD symbolic padding bytes (so the cached
+            // definition may coincide with the incoming one in id, fields, or both)
+            const CFC: usize = $cfc;
+            const CPAD: usize = $cpad;
             let mut p = IPFixParser::default();
             let c0: u16 = kani::any();
             let cf = any_field(kani::any());
             let cf_copy = cf.clone();
-            p.templates.insert(c0, Template { template_id: c0, field_count: 1, fields: vec![cf], padding: vec![] });
+            let cf1 = any_field(kani::any());
+            let cf1_copy = cf1.clone();
+            let cpad: [u8; 2] = kani::any();
+            p.templates.insert(c0, Template {
+                template_id: c0,
+                field_count: CFC as u16,
+                fields: if CFC == 2 { vec![cf, cf1] } else { vec![cf] },
+                padding: if CPAD == 2 { vec![cpad[0], cpad[1]] } else { vec![] },
+            });
             let mut buf: [u8; N] = kani::any();
             buf[0] = 0;
             buf[1] = 2;
@@ -146,7 +161,9 @@ macro_rules! s_ipfix_template {
                             assert!(fields_eq(&ct.fields, &t.fields) && bytes_eq(&ct.padding, &t.padding));
                             if c0 != tid {
                                 let old = p.templates.get(&c0).unwrap();
-                                assert!(old.template_id == c0 && old.fields.len() == 1 && tf_eq(&old.fields[0], &cf_copy));
+                                assert!(old.template_id == c0 && old.fields.len() == CFC && tf_eq(&old.fields[0], &cf_copy));
+                                assert!(CFC < 2 || tf_eq(&old.fields[1], &cf1_copy));
+                                assert!(old.padding.len() == CPAD);
                                 assert!(p.templates.len() == 2);
                             } else {
                                 assert!(p.templates.len() == 1);
@@ -164,7 +181,7 @@ macro_rules! s_ipfix_template {
                     assert!(!valid);
                     assert!(p.templates.len() == 1);
                     let old = p.templates.get(&c0).unwrap();
-                    assert!(old.fields.len() == 1 && tf_eq(&old.fields[0], &cf_copy));
+                    assert!(old.fields.len() == CFC && tf_eq(&old.fields[0], &cf_copy));
                 }
             }
             assert!(p.options_templates.len() == 0);
@@ -177,6 +194,9 @@ s_ipfix_template!(s_ipfix_template_1p_pad3, 1, [false, false], 3);
 s_ipfix_template!(s_ipfix_template_2p, 2, [false, false], 0);
 s_ipfix_template!(s_ipfix_template_e_p, 2, [true, false], 2);
 s_ipfix_template!(s_ipfix_template_p_e, 2, [false, true], 0);
+// cached entry of the same shape as the incoming record (same field count; padding differs)
+s_ipfix_template!(s_ipfix_template_2p_c2, 2, [false, false], 0, 2, 2);
+s_ipfix_template!(s_ipfix_template_1p_c1pad, 1, [false, false], 0, 1, 2);
 
 /// Known-finding witness C05-multi-record-template-set: two template records in one set.
 #[kani::proof]
@@ -227,6 +247,9 @@ fn s_ipfix_template_short_record_kf() {
 /// S/T: options-template set (id 3), one record; shapes written as above plus the scope count.
 macro_rules! s_ipfix_options_template {
     ($name:ident, $fc:expr, $sc:expr, $ent:expr, $pad:expr) => {
+        s_ipfix_options_template!($name, $fc, $sc, $ent, $pad, 0);
+    };
+    ($name:ident, $fc:expr, $sc:expr, $ent:expr, $pad:expr, $cfc:expr) => {
         #[kani::proof]
         #[kani::stub(core::fmt::write, no_fmt)]
         fn $name() {
@@ -237,7 +260,25 @@ macro_rules! s_ipfix_options_template {
             const RL: usize = 6 + (if FC >= 1 { if ENT[0] { 8 } else { 4 } } else { 0 }) + (if FC >= 2 { if ENT[1] { 8 } else { 4 } } else { 0 });
             const B: usize = RL + PAD;
             const N: usize = 4 + B;
+            // cached options template (CFC = 0: empty cache): symbolic id, scope count and fields,
+            // so it may be a prefix / an extension / a copy of the incoming definition
+            const CFC: usize = $cfc;
             let mut p = IPFixParser::default();
+            let c0: u16 = kani::any();
+            let csc: u16 = kani::any();
+            let cf = any_field(kani::any());
+            let cf_copy = cf.clone();
+            let cf1 = any_field(kani::any());
+            let cf1_copy = cf1.clone();
+            if CFC > 0 {
+                p.options_templates.insert(c0, OptionsTemplate {
+                    template_id: c0,
+                    field_count: CFC as u16,
+                    scope_field_count: csc,
+                    fields: if CFC == 2 { vec![cf, cf1] } else { vec![cf] },
+                    padding: vec![],
+                });
+            }
             let mut buf: [u8; N] = kani::any();
             buf[0] = 0;
             buf[1] = 3;
@@ -279,14 +320,26 @@ macro_rules! s_ipfix_options_template {
                             let ct = p.options_templates.get(&tid).unwrap();
                             assert!(ct.template_id == t.template_id && ct.field_count == t.field_count && ct.scope_field_count == t.scope_field_count);
                             assert!(fields_eq(&ct.fields, &t.fields) && bytes_eq(&ct.padding, &t.padding));
-                            assert!(p.options_templates.len() == 1);
+                            if CFC > 0 && c0 != tid {
+                                let old = p.options_templates.get(&c0).unwrap();
+                                assert!(old.template_id == c0 && old.scope_field_count == csc && old.fields.len() == CFC);
+                                assert!(tf_eq(&old.fields[0], &cf_copy) && (CFC < 2 || tf_eq(&old.fields[1], &cf1_copy)));
+                                assert!(p.options_templates.len() == 2);
+                            } else {
+                                assert!(p.options_templates.len() == 1);
+                            }
+                            kani::cover!(CFC == 0 || c0 == tid);
                         }
                         _ => assert!(false),
                     }
                 }
                 Err(_) => {
                     assert!(!valid);
-                    assert!(p.options_templates.len() == 0);
+                    assert!(p.options_templates.len() == if CFC > 0 { 1 } else { 0 });
+                    if CFC > 0 {
+                        let old = p.options_templates.get(&c0).unwrap();
+                        assert!(old.fields.len() == CFC && tf_eq(&old.fields[0], &cf_copy));
+                    }
                 }
             }
             assert!(p.templates.len() == 0);
@@ -297,6 +350,10 @@ macro_rules! s_ipfix_options_template {
 }
 s_ipfix_options_template!(s_ipfix_options_template_2_1, 2, 1, [false, false], 2);
 s_ipfix_options_template!(s_ipfix_options_template_1_1_e, 1, 1, [true, false], 0);
+// redefinition against a cached options template: one more field / one field fewer / same count
+s_ipfix_options_template!(s_ipfix_options_template_2_1_c1, 2, 1, [false, false], 0, 1);
+s_ipfix_options_template!(s_ipfix_options_template_1_1_c2, 1, 1, [false, false], 0, 2);
+s_ipfix_options_template!(s_ipfix_options_template_2_1_c2, 2, 1, [false, false], 0, 2);
 
 // exact-on-domain D models: every cached field is fixed-length >= 8 and the body has at
 // most 7 bytes: the first field read fails, so the real Data/OptionsData::parse return Err.
